@@ -303,8 +303,18 @@ def systematic_sources(basic):
         # (H) a policy whose first rules start in the years around the first year of the database (1998..2001) and govern the
         # zone from long before: the time before the first rule has no prior rule (anchor rule / initial letter)
         for fy in (1998, 1999, 2000, 2001):
-            ph = [("Rule", "PH", fy, "max", "-", a[0], a[1], a[2], a[3], a[4]), ("Rule", "PH", fy, "max", "-", b[0], b[1], b[2], b[3], b[4])]
-            src([("PH", ph)], [(hm(off + 7), "-", "LMT", "1980"), (hm(off), "PH", "H%sT")], "%s/policy-starts-%d" % (h, fy))
+            for zero in ("0", "0:00"):          # the SAVE column of a standard-time rule may be spelled either way
+                ph = [("Rule", "PH", fy, "max", "-", a[0], a[1], a[2], a[3], a[4]), ("Rule", "PH", fy, "max", "-", b[0], b[1], b[2], zero, b[4])]
+                src([("PH", ph)], [(hm(off + 7), "-", "LMT", "1980"), (hm(off), "PH", "H%sT")], "%s/policy-starts-%d/save-%s" % (h, fy, zero))
+        # (K) era changes just before / at / after the first and the last instant of the database range
+        if not basic:
+            for form in ("1999 Dec 31 20:00", "1999 Dec 31 24:00", "2000 Jan 1 0:00", "2000 Jan 1 3:00", "1999 Dec 1", "2049 Dec 31 20:00", "2050 Jan 1 0:00"):
+                for nx in ("-", "PA"):
+                    nxt = (hm(off + 60), "-", "FIX") if nx == "-" else (hm(off + 60), "PA", "B%sT")
+                    src([("PA", pa)], [(hm(off + 7), "-", "LMT", "1980"), (hm(off), "PA", "A%sT", form), nxt], "%s/%s/range-edge/%s" % (h, nx, form))
+        else:
+            for form in ("1999", "2000", "2001", "2049", "2050"):
+                src([("PA", pa)], [(hm(off + 15), "-", "LMT", "1980"), (hm(off), "PA", "A%sT", form), (hm(off + 60), "PA", "B%sT")], "%s/range-edge/%s" % (h, form))
         # (D) UNTIL given as a weekday expression, including ones that resolve into the neighbouring month
         if not basic:
             for form in ("2009 Sep Sun>=28 2:00", "2009 Oct Sat<=2 2:00", "2009 Mar lastSun 1:00u", "2009 Jun Sun>=8 0:00", "2009 Nov Sun>=29 3:00s",
